@@ -163,7 +163,7 @@ def run(tier: str) -> int:
     if r['violated']:
         raise MachineryFailure(f'Resource.tla violates {r["violated"]}')
     res.add_mc(r, cfg)
-    rt = tlc.run_tlc('Resource', 'MC_Resource_tile.cfg', workers=4, timeout=600)
+    rt = tlc.run_tlc('Resource', 'MC_Resource_tile.cfg', workers=4, timeout=2400)
     tlc.check_mc(rt, 'MC_Resource_tile.cfg', ['FindDrawdown'])
     if rt['violated']:
         raise MachineryFailure(f'Resource.tla (tiling) violates {rt["violated"]}')
